@@ -20,6 +20,7 @@ recursive reading of the path lists draws (the number of lines for the very deep
 whose output runs to gigabytes and is counted while it streams).
 Correspondence: the extracted Crash model's class (ok / err) against the exit status, and the
 model's file tree (Crash.directory_rows) against the tree the implementation prints."""
+import zlib
 import json, os, re, shutil, subprocess, sys, tempfile, time, urllib.parse
 from concurrent.futures import ThreadPoolExecutor
 import lib
@@ -571,12 +572,25 @@ def run_real(ctx, tmp, data, cmd, via_stdin, timeout=120, stats=None):
         if cmd == "stats" or not via_stdin:
             with open(os.path.join(d, "t.torrent"), "wb") as f:
                 f.write(data)
+        if cmd == "stats":
+            # what else lies in the directory `stats` walks is local input too: names that are not UTF-8 (also after the last
+            # dot), look-alike extensions, a directory and a dangling link named like a torrent (added after seeded change C08-8)
+            for nm in (b"r\xe9sum\xe9.caf\xe9", b"backup.torrent\xe9", b"UPPER.TORRENT", b"noext", b".torrent", b"x.torrent.bak", b"\xff\xfe.torrent"):
+                with open(os.path.join(os.fsencode(d), nm), "wb") as f:
+                    f.write(data[: len(data) // 2])
+            os.makedirs(os.path.join(d, "dir.torrent"), exist_ok=True)
+            os.symlink("nowhere", os.path.join(d, "dangling.torrent"))
         target = "-" if (via_stdin and cmd != "stats") else "t.torrent"
+        # the logger is part of the process: with RUST_LOG=trace every log statement's arguments are evaluated (added after
+        # seeded change C08-7, a trace! line dividing by the piece length); chosen from the input so that a case replays
+        env = {"NO_COLOR": "1"}
+        if zlib.crc32(data) % 3 == 0:
+            env["RUST_LOG"] = "trace"
         if stats is not None:
-            rc, out, err, st = run_counting([ctx.bins["imdl"]] + argv_for(cmd, target)[1:], d, data if target == "-" else b"", {"NO_COLOR": "1"}, timeout)
+            rc, out, err, st = run_counting([ctx.bins["imdl"]] + argv_for(cmd, target)[1:], d, data if target == "-" else b"", env, timeout)
             stats.update(st)
             return rc, out, err
-        rc, out, err = ctx.imdl(argv_for(cmd, target)[1:], cwd=d, stdin=data if target == "-" else b"", env={"NO_COLOR": "1"}, timeout=timeout)
+        rc, out, err = ctx.imdl(argv_for(cmd, target)[1:], cwd=d, stdin=data if target == "-" else b"", env=env, timeout=timeout)
         return rc, out, err
     finally:
         shutil.rmtree(d, ignore_errors=True)
@@ -1216,11 +1230,51 @@ def run(ctx):
                        extra={"argv_hex": [(a.encode() if isinstance(a, str) else a).hex() for a in argv]})
         ctx.sample({"argument family": "size", "examples": ["9" * 20 + "EiB", "1..2", "1\u212aiB"]})
         ctx.sample({"mutations": sorted(set(re.sub(r"^nest\d+$", "nest", l) for l, _ in small))[:40]})
+        closed_stdout(ctx, tmp)
         lib.log("c08: argument runs done at %.0fs" % (time.time() - ctx.t0))
     finally:
         bigpool.shutdown(wait=True, cancel_futures=True)
         shutil.rmtree(tmp, ignore_errors=True)
     return finish(ctx)
+
+
+def closed_stdout(ctx, tmp):
+    """The reader of standard output has gone before imdl writes (`imdl torrent show x | head -c0`): the write fails with EPIPE,
+    which is an ordinary reported failure (exit 1 with an `error:` line) - not death by SIGPIPE. (Added after seeded change
+    C08-9: SIGPIPE restored to its default disposition at start-up.)"""
+    import subprocess
+    data = corpus()[-5][1] if len(corpus()) >= 5 else None
+    valid = next((b for l, b in corpus() if l == "corpus-valid"), data)
+    d = tempfile.mkdtemp(dir=tmp)
+    try:
+        with open(os.path.join(d, "t.torrent"), "wb") as f:
+            f.write(valid)
+        for cmd in ("show", "showjson", "showterm", "link", "dump"):
+            for via in (False, True):
+                target = "-" if via else "t.torrent"
+                rfd, wfd = os.pipe()
+                os.close(rfd)
+                e = {"PATH": os.environ.get("PATH", ""), "RUST_BACKTRACE": "0"}
+                e.update(lib.noise_env())
+                try:
+                    p = subprocess.run([ctx.bins["imdl"]] + argv_for(cmd, target)[1:], cwd=d, input=valid if via else b"", stdout=wfd,
+                                       stderr=subprocess.PIPE, env=e, timeout=60)
+                    rc, err = p.returncode, p.stderr
+                except subprocess.TimeoutExpired:
+                    rc, err = 124, b""
+                finally:
+                    os.close(wfd)
+                ctx.cov["evaluations"] += 1
+                ctx.count("closed_stdout_runs")
+                ctx.distinct(("closed-stdout", cmd, via))
+                why = abnormal(rc, err)
+                if why is not None:
+                    ctx.violation("oracle-failure", "imdl %s with standard output closed by its reader: %s" % (cmd, why),
+                                  {"kind": "closed-stdout", "argv": argv_for(cmd, target), "via_stdin": via, "rc": rc,
+                                   "stderr": err.decode("utf-8", "replace")[-300:],
+                                   "reproduce": "%s %s | head -c0; echo ${PIPESTATUS[0]}" % (" ".join(argv_for(cmd, target)), "< t.torrent" if via else "")})
+    finally:
+        shutil.rmtree(d, ignore_errors=True)
 
 
 def finish(ctx):
